@@ -14,6 +14,15 @@
      Sync_lagw.cfg       repaired, Lag = W = 2 as in the code, chain 5, safety         2 907 211 states
      Sync_faults2.cfg    repaired, chain <= 4, 1 source step, 2 faults, safety         2 523 682 states
      Sync_thorough.cfg   repaired, chain <= 4, 2 source steps, 1 fault, safety         8 628 206 states
+     Sync_x_emptyroot.cfg  EXPECTED VIOLATION: state-root checks of Store skipped for blocks without diff entries
+                         (EmptyDiff = {2}): StoredOnlyVerified fails, 15-step counterexample ("root" forgery of block 2
+                         stored)                                                        ~1 900 states, 2 s
+     Sync_x_memo.cfg     EXPECTED VIOLATION: verdict remembered by claimed hash: StoredOnlyVerified fails, 26-step
+                         counterexample (block verified, dropped by the tip -> catch-up stream reset, fetched again,
+                         answered with altered content under the honest header, stored)  ~49 000 states, 6 s
+     (adding EmptyDiff / the forged kinds / memo / tainted left the distinct-state counts of the repaired
+      configurations unchanged: the three forged kinds and the two kinds of corrupted copy lead to the same
+      successor state while both mechanisms are in place)
      Sync_big.cfg        repaired, chain <= 4, 2 source steps, 2 faults, safety (optional; 10.5 M states before the
                          wrong-height / forged answers were added, not re-measured) *)
 EXTENDS Sync
